@@ -4,6 +4,7 @@ import (
 	"fmt"
 	"go/ast"
 	"go/token"
+	"go/types"
 	"strings"
 )
 
@@ -22,6 +23,8 @@ func init() {
 		mutation{"case-sensitive-lookup", "acme/dns.go", "	qname := strings.ToLower(q.Name)\n	defined := d.records[qname]", "	qname := q.Name\n	defined := d.records[qname]", "lower-cased"},
 		mutation{"storage-error-as-nxdomain", "acme/dns.go", "		if err != nil {\n			rcode = dns.RcodeServerFailure\n		} else {", "		if err != nil {\n			rcode = dns.RcodeNameError\n		} else {", "rcode"},
 		mutation{"empty-values-answered", "acme/dns.go", "		if len(v) > 0 {\n			r := new(dns.TXT)", "		if len(v) >= 0 {\n			r := new(dns.TXT)", "txt-values"},
+		mutation{"label-by-split-after-caller-guard", "acme/dns.go", "	qname := strings.ToLower(q.Name)\n	// the label in front of the zone, cut at the label boundary\n	if !strings.HasSuffix(qname, \".\"+d.domain) {\n		return ra, nil\n	}\n	subdomain := strings.TrimSuffix(qname, \".\"+d.domain)\n	if subdomain == \"\" {\n		return ra, nil\n	}", "	labels := dns.SplitDomainName(strings.ToLower(q.Name))\n	if len(labels) <= dns.CountLabel(d.domain) {\n		return ra, nil\n	}\n	subdomain := labels[0]", "!label-aligned"},
+		mutation{"label-keeps-query-case", "acme/dns.go", "	subdomain := strings.TrimSuffix(qname, \".\"+d.domain)", "	subdomain := q.Name[:len(q.Name)-len(\".\"+d.domain)]", "lower-cased"},
 		mutation{"equivalent-issubdomain", "acme/dns.go", "	return (qname == d.domain || strings.HasSuffix(qname, \".\"+d.domain)) &&", "	return dns.IsSubDomain(d.domain, qname) &&", "!label-aligned"},
 	)
 	addSelfTests("C49",
@@ -103,7 +106,7 @@ func runC48(c *Ctx) {
 			c.Ob("label-aligned", fmt.Sprintf("DNS.%s#%s(zone)", name, strings.TrimPrefix(k, "strings.")), call.Pos(), okSite, "a query name is matched against the zone on a label boundary (\".\"+zone suffix, equality or dns.IsSubDomain); a raw suffix/substring match treats fooZONE as inside ZONE and mis-cuts the label; found "+fn.Str(call))
 		}
 	}
-	c.Floor("zone pattern sites", nsite, 3)
+	c.Floor("zone pattern sites", nsite, 1)
 	// the label handed to storage is cut only after the aligned membership test
 	at := c.Func("acme", "DNS", "answerTXT")
 	for _, call := range at.Calls(false, func(call *ast.CallExpr) bool { return at.IsCall(call, "*.PrefixList") }) {
@@ -115,7 +118,34 @@ func runC48(c *Ctx) {
 			al, _ := zoneAligned(at, fa.Call, zone)
 			return al
 		})
-		c.Ob("label-aligned", "DNS.answerTXT#storage-lookup-after-aligned-test", call.Pos(), okGuard, "storage is consulted only for a name that passed the label-aligned zone test")
+		if !okGuard {
+			// the aligned test may be established by every caller instead: answerTXT is
+			// reached only after isImmediate(q) held, and isImmediate's result implies
+			// the aligned test
+			ncall, okCallers := 0, true
+			for _, g := range c.AllFuncs("acme") {
+				for _, cs := range g.Calls(true, func(x *ast.CallExpr) bool { return g.IsCall(x, "acme.DNS.answerTXT") }) {
+					ncall++
+					cf := g.enclosing(cs)
+					if !cf.FactsAt(cs).Has(func(fa *Fact) bool { return fa.Kind == FTrue && cf.IsCall(fa.Call, "acme.DNS.isImmediate") }) {
+						okCallers = false
+					}
+				}
+			}
+			im := c.Func("acme", "DNS", "isImmediate")
+			okIm := len(im.Returns()) > 0
+			for _, r := range im.Returns() {
+				okR := false
+				for _, cj := range conjuncts(r.Results[0]) {
+					if al, raw := zoneAligned(im, cj, zone); al && !raw {
+						okR = true
+					}
+				}
+				okIm = okIm && okR
+			}
+			okGuard = ncall > 0 && okCallers && okIm
+		}
+		c.Ob("label-aligned", "DNS.answerTXT#storage-lookup-after-aligned-test", call.Pos(), okGuard, "storage is consulted only for a name that passed the label-aligned zone test (in answerTXT itself, or in every caller through isImmediate)")
 		c.Ob("lower-cased", "DNS.answerTXT#storage-key-from-lower-cased-name", call.Pos(), strings.Contains(at.Prov(call.Args[1]), "call:acme.dnsKeyName()"), "the storage key is dnsKeyName(label)")
 	}
 	// lower-casing before lookups
@@ -148,6 +178,37 @@ func runC48(c *Ctx) {
 		})
 		c.Ob("lower-cased", fn.Name+"#name-tests-on-lower-cased-name", fn.Decl.Pos(), !usesRaw, "zone tests and label cutting operate on the lower-cased query name")
 	}
+	// every data path from the query name into a decision or a storage key is case-folded
+	isQName := func(fn *Fn) func(e ast.Expr) bool {
+		return func(e ast.Expr) bool {
+			sel, ok := e.(*ast.SelectorExpr)
+			if !ok || sel.Sel.Name != "Name" {
+				return false
+			}
+			s := fn.Info.Selections[sel]
+			return s != nil && s.Kind() == types.FieldVal && strings.HasSuffix(s.Recv().String(), "github.com/miekg/dns.Question")
+		}
+	}
+	folds := func(fn *Fn) func(call *ast.CallExpr) bool {
+		return func(call *ast.CallExpr) bool {
+			return fn.IsCall(call, "strings.ToLower", "github.com/miekg/dns.CanonicalName")
+		}
+	}
+	nfold := 0
+	for _, call := range at.Calls(false, func(call *ast.CallExpr) bool { return at.IsCall(call, "*.PrefixList") }) {
+		ok, w := at.flowsOnlyVia(call.Args[1], isQName(at), folds(at))
+		nfold++
+		c.Ob("lower-cased", "DNS.answerTXT#query-name-reaches-storage-key-only-case-folded", call.Pos(), ok, "every data path from q.Name into the storage key passes strings.ToLower (challenge labels are stored lower-cased; a resolver using 0x20 case randomisation sends mixed case); raw path: "+w)
+	}
+	im := c.Func("acme", "DNS", "isImmediate")
+	for _, r := range im.Returns() {
+		for _, res := range r.Results {
+			ok, w := im.flowsOnlyVia(res, isQName(im), folds(im))
+			nfold++
+			c.Ob("lower-cased", "DNS.isImmediate#query-name-reaches-decision-only-case-folded", r.Pos(), ok, "the zone-membership decision depends on q.Name only through strings.ToLower; raw path: "+w)
+		}
+	}
+	c.Floor("case-fold flow sites", nfold, 2)
 	// rcode decision list
 	seen := map[string]bool{}
 	for _, r := range an.Returns() {
